@@ -117,19 +117,14 @@ def _donor(g: L.G, p: Any, ind: str) -> dict:
     return d
 
 
-def slot_sweep(per_key: int = 3, n_docs: int = 500) -> Iterator[dict]:
-    """Every optional / required / value-level property of every class, in each presence state of its slot (absent / present),
-    `per_key` instances each, with every operation shape (set to None, set to a donor / value). Documents come from a
-    fixed-seed Random and are rich in the rarely drawn constructs (costs with compound amounts, partial prices, tolerances)."""
-    import collections
+def sweep_docs(n_docs: int = 500, seed: int = 4242) -> Iterator[tuple]:
+    """Fixed-seed documents rich in the rarely drawn constructs; yields (generator, chunks, parsed root)."""
     from vf.props import common
-    rnd = random.Random(4242)
+    rnd = random.Random(seed)
     cfg = L.Cfg(max_dirs=5, exotic=0.03, hazard_text=0.03, comments=0.2, crlf=0.05)
     S.build()
-    count: collections.Counter = collections.Counter()
     kinds_cycle = ['transaction', 'transaction', 'balance', 'open', 'note', 'custom', 'price', 'transaction', 'document', 'close', 'pad', 'event',
                    'query', 'commodity', 'option', 'plugin', 'pushmeta', 'include', 'pushtag', 'poptag', 'popmeta', 'ignored']
-    wanted = {'opt', 'copt', 'uopt', 'req', 'rval', 'oval'}
     for d in range(n_docs):
         g = L.G(rnd, cfg)
         groups = []
@@ -142,6 +137,16 @@ def slot_sweep(per_key: int = 3, n_docs: int = 500) -> Iterator[dict]:
             root = common.parse_file(L.text_of(chunks))
         except Exception:  # noqa: BLE001
             continue
+        yield g, chunks, root
+
+
+def slot_sweep(per_key: int = 3, n_docs: int = 500) -> Iterator[dict]:
+    """Every optional / required / value-level property of every class, in each presence state of its slot (absent / present),
+    `per_key` instances each, with every operation shape (set to None, set to a donor / value)."""
+    import collections
+    count: collections.Counter = collections.Counter()
+    wanted = {'opt', 'copt', 'uopt', 'req', 'rval', 'oval'}
+    for g, chunks, root in sweep_docs(n_docs):
         for m, p, cname, mi in OPS.candidates(root, wanted):
             try:
                 rn = OPS.raw_name(p) if p.kind in ('rval', 'oval') else p.name
